@@ -137,3 +137,84 @@ def in_finally_of_outermost_try(fn: ast.FunctionDef, node: ast.AST) -> bool:
                     if sub is node:
                         return True
     return False
+
+
+def stable_step(cfg: CFG, stable: Iterable[str]):
+    """step function for CFG.reach_product that keeps repeated tests of *stable* expressions consistent along a path.
+
+    ``stable`` are source texts of expressions whose truth value cannot change while the function runs (parameters that
+    are never reassigned, flags that are only ever set by another party in one direction).  The state is a frozenset of
+    (text, bool).  Copies are followed: after ``X = <stable expr>`` a test of X has the value of the stable expression
+    until X is assigned again."""
+    stable = set(stable)
+
+    def truth(test: ast.AST, st: dict) -> Tuple[Optional[str], bool]:
+        """(text, negated) when the test is a (possibly negated / 'is True'-compared) stable or copied expression"""
+        neg = False
+        t = test
+        while isinstance(t, ast.UnaryOp) and isinstance(t.op, ast.Not):
+            neg = not neg
+            t = t.operand
+        if isinstance(t, ast.Compare) and len(t.ops) == 1 and isinstance(t.comparators[0], ast.Constant) \
+                and isinstance(t.comparators[0].value, bool):
+            c = t.comparators[0].value
+            if isinstance(t.ops[0], (ast.Is, ast.Eq)):
+                neg = neg if c else not neg
+                t = t.left
+            elif isinstance(t.ops[0], (ast.IsNot, ast.NotEq)):
+                neg = (not neg) if c else neg
+                t = t.left
+        txt = source.src(t)
+        if txt in stable or txt in st:
+            return txt, neg
+        return None, False
+
+    def step(src: Node, label: Optional[str], dst: Node, state):
+        st = dict(state)
+        if src.kind == "test" and src.ast is not None and label in ("T", "F"):
+            txt, neg = truth(src.ast, st)
+            if txt is not None:
+                val = (label == "T") != neg
+                if txt in st and st[txt] != val:
+                    return None
+                st[txt] = val
+        elif src.kind == "stmt" and isinstance(src.ast, (ast.Assign, ast.AugAssign, ast.AnnAssign)) and label != "exc":
+            targets = src.ast.targets if isinstance(src.ast, ast.Assign) else [src.ast.target]
+            for t in targets:
+                ttxt = source.src(t)
+                if ttxt in stable:
+                    continue
+                st.pop(ttxt, None)
+                if isinstance(src.ast, ast.Assign):
+                    v = src.ast.value
+                    if isinstance(v, ast.Constant) and isinstance(v.value, bool):
+                        st[ttxt] = v.value
+                    else:
+                        vtxt = source.src(v)
+                        if vtxt in st and (vtxt in stable):
+                            st[ttxt] = st[vtxt]
+        return frozenset(st.items())
+    return step
+
+
+def reach_consistent(cfg: CFG, starts: Sequence[Node], stable: Iterable[str], blocked: Iterable[Node] = (),
+                     blocked_edges: Iterable[Tuple[int, Optional[str]]] = (), ignore_labels: Iterable[str] = (),
+                     init: Iterable[Tuple[str, bool]] = ()) -> Set[int]:
+    """node ids reachable from ``starts`` on paths that are consistent in the stable expressions."""
+    step = stable_step(cfg, stable)
+    out: Set[int] = set()
+    for s in starts:
+        for (nid, _st) in cfg.reach_product(s, frozenset(init), step, blocked=blocked, blocked_edges=blocked_edges,
+                                            ignore_labels=ignore_labels):
+            out.add(nid)
+    return out
+
+
+def only_via_edges_consistent(cfg: CFG, target: Node, edges: Sequence[Tuple[Node, str]], stable: Iterable[str],
+                              ignore_labels: Iterable[str] = ()) -> bool:
+    """like only_via_edges, but infeasible paths (contradicting tests of a stable expression) are not counted."""
+    if not edges:
+        return False
+    blocked = {(n.id, lab) for (n, lab) in edges}
+    r = reach_consistent(cfg, [cfg.entry], stable, blocked_edges=blocked, ignore_labels=ignore_labels)
+    return target.id not in r
